@@ -4,10 +4,10 @@ and (re)builds the detection matrix: for every seeded change, apply it to a scra
 its property (and related ones) against that worktree through VERIF_REPO, remove the worktree.  /repo itself is never touched."""
 import json, os, shutil, subprocess, sys
 
-SRCS = [("/tmp/seeded", 1), ("/tmp/seeded2", 2), ("/tmp/seeded3", 3), ("/tmp/seeded4", 4), ("/tmp/seeded5", 5), ("/tmp/seeded6", 6), ("/tmp/seeded7", 7)]
+SRCS = [("/tmp/seeded", 1), ("/tmp/seeded2", 2), ("/tmp/seeded3", 3), ("/tmp/seeded4", 4), ("/tmp/seeded5", 5), ("/tmp/seeded6", 6), ("/tmp/seeded7", 7), ("/tmp/seeded8", 8)]
 VERIF = os.path.dirname(os.path.dirname(os.path.abspath(__file__)))
 DST = os.path.join(VERIF, "seeded")
-RELATED = {"C02": ["C14"], "C03": ["C02", "C14"], "C14": ["C02"], "C10": ["C09", "C04", "C14"], "C18": [], "C08": [], "C07": ["C08"], "C09": ["C14"], "C11": ["C12"], "C12": ["C13"], "C13": ["C12"]}
+RELATED = {"C02": ["C14"], "C03": ["C02", "C14"], "C14": ["C02"], "C10": ["C09", "C04", "C14"], "C18": [], "C08": [], "C07": ["C08"], "C09": ["C14", "C04"], "C11": ["C12"], "C12": ["C13"], "C13": ["C12"]}
 STRENGTHENED = {
     "C03-dedup-swallows-ack": "missed at first; C03 gained forced message-ID collisions (stray ACK/RST and a peer request on the ID the CON is going to use)",
     "C03-timeout-fails-wrong-request": "missed by C03 at first (caught by C02 and C14); C03 gained a bystander request registered later",
@@ -149,6 +149,31 @@ STRENGTHENED = {
     "C19-open-file-survives-replace": "missed at first; C19 gained a replacement through the server between a partial and a second fetch",
     "C20-simple-reg-commit-before-fetch": "missed at first; C20 gained simple registration with every outcome of the link fetch",
     "C20-param-merge-stops-at-unchanged": "missed at first; C20 gained updates with several parameters, one of them unchanged",
+    # round 8
+    "C02-empty-reply-mid-zero": "missed at first; the forgery menu gained a confirmable response under message ID 0",
+    "C02-ended-pipe-exception-falls-through": "missed at first; C02 gained the Reset for a finished request whose exchange is still open",
+    "C03-giveup-resets-held-back": "missed by C03 (the held-back message is C14's subject); C14 gained the rule that held-back requests fail with the error class of what happened to the remote",
+    "C03-shared-default-tuning": "missed at first; C03 gained a CON without a tuning of its own after another message's default tuning was edited in place",
+    "C04-reply-repetition-budget": "missed at first (needs 5 copies); C04 gained the prefix with the request and seven copies of it",
+    "C06-block1-final-block2-size-ignored": "missed at first; C06 gained combined Block1 + Block2 transfers",
+    "C07-error-overtakes-pending": "missed at first; C07 gained a consumer that is busy in the loop body while notifications and the end arrive",
+    "C08-cancelled-trigger-aborts-fanout": "missed at first; C08 gained a state change in the loop pass in which a Reset is read (world: same-pass callbacks)",
+    "C08-notification-timeout-strands-held-back": "missed at first; C08 gained an observer with two registrations that never acknowledges",
+    "C09-piggyback-mid-zero": "missed by C09 at first (C04 caught it); C09 gained requests under message ID 0 and the rule that the acknowledgement names the request",
+    "C10-proxy-copy-keeps-mtype": "missed at first (the change is in aiocoap/proxy/server.py); C10 gained the node as a forward proxy",
+    "C10-request-rides-piggyback": "missed at first; C10 gained the node's own request going out on the token of the peer's request that is still with its handler",
+    "C11-max-length-id-refused": "missed at first; C11 gained contexts loaded from directories with every admissible ID length per algorithm",
+    "C11-nonconfirmable-echo-challenge-dropped": "missed at first (aiocoap/oscore_sitewrapper.py); C11's transport family gained non-confirmable requests",
+    "C12-provisioned-seqfile-empty-window": "missed at first; C12 gained sequence files that say nothing usable about what was received",
+    "C13-store-off-loop": "missed at first; C13 runs every operation inside a running loop, executor jobs are deferred and die with the process",
+    "C15-empty-with-content-rejected": "missed at first; the frame alphabet gained Empty messages with a token / an option / a payload",
+    "C16-remote-reuse-ignores-scheme": "missed at first; the history oracle gained the same URI under another scheme as predecessor",
+    "C17-falsy-resource-exact-match": "missed at first; C17 gained resource objects that are false in a boolean context",
+    "C18-outbound-task-cancelled-silently": "missed at first; C18 gained a request submitted in the very step that starts the shutdown",
+    "C18-shutdown-waits-for-handlers": "missed at first; C18 gained a handler whose clean-up after the cancellation outlasts the shutdown time-out",
+    "C19-nfkc-fallback-lookup": "missed at first; the component alphabet gained compatibility forms of dots and slashes and the names next to the root",
+    "C19-prune-empty-dirs-overshoots-root": "harness fault at first (the emptied-tree history assumed its directories); the history with the deepest file deleted last was added",
+    "C20-empty-update-fastpath-stale-base": "missed at first; C20 gained updates of an endpoint that has moved to another address",
 }
 
 
